@@ -230,6 +230,61 @@ def _replace(stmt, call, result):
     return False
 
 
+class _Subst(ast.NodeTransformer):
+    def __init__(self, mapping):
+        self.mapping = mapping
+
+    def visit_Name(self, node):
+        if isinstance(node.ctx, ast.Load) and node.id in self.mapping:
+            return copy.deepcopy(self.mapping[node.id])
+        return node
+
+
+def _expression_helper(helper):
+    """The returned expression when the helper is just `return <expr>` (after an optional docstring)."""
+    body = helper.body
+    if body and isinstance(body[0], ast.Expr) and isinstance(body[0].value, ast.Constant) and isinstance(body[0].value.value, str):
+        body = body[1:]
+    if len(body) == 1 and isinstance(body[0], ast.Return) and body[0].value is not None:
+        e = body[0].value
+        if not any(isinstance(x, (ast.Lambda, ast.ListComp, ast.SetComp, ast.DictComp, ast.GeneratorExp, ast.NamedExpr, ast.Yield, ast.Await)) for x in ast.walk(e)):
+            return e
+    return None
+
+
+def _inline_expression_helpers(fn, helpers, names_ok, is_method):
+    """Replace calls of one-expression helpers by that expression (arguments substituted), wherever they occur."""
+    changed = True
+    rounds = 0
+    while changed and rounds < 4:
+        changed = False
+        rounds += 1
+        for st in ast.walk(fn):
+            for name, call, ok in (_helper_calls(st, names_ok, is_method) if isinstance(st, ast.stmt) and not isinstance(st, (ast.FunctionDef, ast.ClassDef)) else []):
+                helper = helpers[name]
+                e = _expression_helper(helper)
+                if e is None or any(isinstance(a, ast.Starred) for a in call.args) or any(k.arg is None for k in call.keywords):
+                    continue
+                drop_self = is_method and not any(isinstance(d, ast.Name) and d.id == 'staticmethod' for d in helper.decorator_list)
+                binds = _bind(helper, call, drop_self)
+                if binds is None:
+                    continue
+                # every argument is evaluated exactly once in the original; keep that property: parameters used more than once need simple arguments
+                uses = {}
+                for x in ast.walk(e):
+                    if isinstance(x, ast.Name):
+                        uses[x.id] = uses.get(x.id, 0) + 1
+                if any(uses.get(p, 0) != 1 and not isinstance(v, (ast.Name, ast.Constant, ast.Attribute)) for p, v in binds):
+                    continue
+                new = _Subst(dict(binds)).visit(copy.deepcopy(e))
+                if _replace(st, call, new):
+                    ast.fix_missing_locations(st)
+                    changed = True
+                    break
+            if changed:
+                break
+
+
 def _rewrite_function(fn, helpers, names_ok, is_method, failed):
     caller_names = _locals(fn) | set(_params(fn))
 
@@ -262,7 +317,7 @@ def _rewrite_function(fn, helpers, names_ok, is_method, failed):
                     calls += _helper_calls(h, names_ok, is_method)
                 if isinstance(st, ast.While):
                     for c in _helper_calls(st.test, names_ok, is_method):
-                        failed.add(c[0])
+                        failed.add(c[0])      # (one-expression helpers were already substituted)
             calls = [c for c in calls if c[0] not in failed]
             # several helper calls in one statement: expand them one by one, in evaluation order, as long as each is hoistable
             while len(calls) > 1 and all(c[2] for c in calls) and not (isinstance(st, ast.Expr) and st.value is calls[0][1]):
@@ -329,7 +384,7 @@ def _qualifies(tree, scope_funcs, helpers, is_method):
             continue
         for st in f.body:
             for name, call, ok in _helper_calls(st, names, is_method):
-                calls[name] += 1 if ok else 1000
+                calls[name] += 1 if (ok or _expression_helper(helpers[name]) is not None) else 1000
     out = set()
     for n in names:
         h = helpers[n]
@@ -360,6 +415,7 @@ def inline_new_helpers(tree, modname, known):
             failed = set()
             for m in methods.values():
                 if m.name not in ok:
+                    _inline_expression_helpers(m, new, ok, True)
                     _rewrite_function(m, new, ok, True, failed)
             for name in sorted(ok):
                 left = any(isinstance(x, ast.Attribute) and x.attr == name for m in methods.values() if m.name != name for x in ast.walk(m))
@@ -376,6 +432,7 @@ def inline_new_helpers(tree, modname, known):
                 failed = set()
                 for f in allf:
                     if f.name not in ok:
+                        _inline_expression_helpers(f, new, ok, False)
                         _rewrite_function(f, new, ok, False, failed)
                 for name in sorted(ok):
                     left = any(isinstance(x, ast.Name) and x.id == name and isinstance(x.ctx, ast.Load) for f in allf if f.name != name for x in ast.walk(f))
